@@ -109,6 +109,10 @@ class Cfg:
             lines = ["", rec(a, p[0]), "", "   ", rec(b, p[1])] + extra
         elif name == "dup":
             lines = [rec(a, p[0]), rec(b, p[1])] + extra + [rec(a, p[1]), "# after dup", rec(b, p[1])]
+        elif name == "nonl":
+            # the last line is a comment without a final newline
+            lines = ["# top", rec(a, p[0])] + extra + [rec(b, p[1])]
+            return ("".join(line + "\n" for line in lines) + "# last line, no newline").encode(self.encoding)
         elif name == "crlf":
             text = "\r\n".join(["# crlf file", rec(a, p[0]), "", rec(b, p[1])] + extra) + "\r\n"
             return text.encode(self.encoding)
@@ -381,7 +385,7 @@ def run(g, env, cfg, seq):
     return True
 
 
-INITIALS = ["empty", "comments", "blank", "dup", "crlf"]
+INITIALS = ["empty", "comments", "blank", "dup", "crlf", "nonl"]
 
 
 def build(tier, rng):
@@ -398,7 +402,7 @@ def build(tier, rng):
                 f"{'HtpasswdFile' if cls == 'htpasswd' else 'HtdigestFile'} (_CommonFile._records/_source)",
                 f"every operation sequence of length <= 2 over {{set_password, set_hash, delete, check_password"
                 f"{', delete_realm' if cls == 'htdigest' else ''}, to_string, save+load, load, load_if_changed, external write + load_if_changed}} on 2 users"
-                f"{' x 2 realms' if cls == 'htdigest' else ''} x 2 passwords, from 5 initial files (empty, comments, blank lines, duplicate users, CRLF) x "
+                f"{' x 2 realms' if cls == 'htdigest' else ''} x 2 passwords, from 6 initial files (empty, comments, blank lines, duplicate users, CRLF, trailing comment without final newline) x "
                 f"schemes {schemes} x autosave (quick: alternating over scheme/file; thorough: on and off); plus every sequence of length 3 from the 'comments' file (htdigest: reduced alphabet; thorough: all 5 files, full "
                 "alphabet (htdigest: full for 'comments' and 'dup', reduced for the others), and length 4 (htpasswd) / 3 (htdigest) on a reduced alphabet with autosave from 'comments' and 'dup') in the first scheme; encodings utf-8/latin-1 and str/bytes arguments alternate over configurations.  After every step: independent "
                 "reader of to_string() == model (once each), layout of untouched lines, check_password for all users x passwords, disk == export under autosave",
@@ -452,7 +456,7 @@ def build(tier, rng):
                 f"{cls}-sequences-sampled",
                 f"{'HtpasswdFile' if cls == 'htpasswd' else 'HtdigestFile'} (_CommonFile._records/_source)",
                 f"random operation sequences of length {maxlen} (all prefixes checked) over the same operations, for every configuration in schemes {schemes} x "
-                f"encoding utf-8/latin-1 x autosave on/off x str/bytes arguments x 5 initial files"
+                f"encoding utf-8/latin-1 x autosave on/off x str/bytes arguments x 6 initial files"
                 f"{' x default_realm set/unset' if cls == 'htdigest' else ''}: {'20' if quick else '60'} sequences each; same observations after every step",
             )
             per = 20 if quick else 60
@@ -475,11 +479,11 @@ def build(tier, rng):
             "htpasswd-default-context",
             "HtpasswdFile (default htpasswd_context)",
             f"HtpasswdFile with the shipped htpasswd_context (apr_md5_crypt, salted) and a custom md5_crypt context: {'100' if quick else '400'} random sequences of "
-            f"length {maxlen} over the 5 initial files ({{SHA}} hashes from hashlib), autosave/encoding/argument style drawn at random; a fresh $apr1$/$1$ hash must "
+            f"length {maxlen} over the 6 initial files ({{SHA}} hashes from hashlib), autosave/encoding/argument style drawn at random; a fresh $apr1$/$1$ hash must "
             "be stored by set_password and verify exactly its password afterwards",
         )
         for n in range(100 if quick else 400):
-            cfg = Cfg("htpasswd", "default" if n % 4 else "md5_crypt", rng.choice(["utf-8", "latin-1"]), rng.random() < 0.5, rng.random() < 0.5, INITIALS[n % 5])
+            cfg = Cfg("htpasswd", "default" if n % 4 else "md5_crypt", rng.choice(["utf-8", "latin-1"]), rng.random() < 0.5, rng.random() < 0.5, INITIALS[n % 6])
             ops = ops_for(cfg)
             seq = tuple(rng.choice(ops) for _ in range(maxlen))
             g.case((cfg.ident(), seq))
